@@ -235,7 +235,7 @@ class DTx(Tx):
                 env_s = dict(env)
                 env_s[nm] = (env[nm][0], "cells")
                 b = self.pure_truth(n.values[1], env_s)
-                return f"(match {env[nm][0]} with | some {env[nm][0]} => {b} | none => false)", "bool"
+                return f"(Option.elim {env[nm][0]} false (fun {env[nm][0]} => {b}))", "bool"
         parts = [self.truth(n.values[0], env)] + [self.pure_truth(x, env) for x in n.values[1:]]
         return "(" + (" && " if isinstance(n.op, ast.And) else " || ").join(parts) + ")", "bool"
 
